@@ -119,6 +119,15 @@ class FunctionSource:
                     self.dropped.append('L%d: %s' % (s.lineno,
                               (ast.get_source_segment(self.src, s) or '')
                               .split('\n')[0][:100]))
+                    # the call is dropped, but evaluating its arguments can
+                    # still raise (unbound local, missing key): keep them
+                    args = list(s.value.args) + [k.value for k in s.value.keywords]
+                    if args:
+                        keep = ast.Expr(value=ast.Tuple(elts=args, ctx=ast.Load()))
+                        ast.copy_location(keep, s)
+                        ast.fix_missing_locations(keep)
+                        keep._dropped_call_args = True
+                        out.append(keep)
                     continue
             s = self._drop_inner(s)
             out.append(s)
